@@ -18,6 +18,7 @@ package locate
 
 import (
 	"bytes"
+	"context"
 	"fmt"
 	"math/rand"
 	"runtime"
@@ -25,6 +26,7 @@ import (
 	"testing"
 	"time"
 
+	"github.com/tikv/client-go/v2/config/retry"
 	"github.com/tikv/client-go/v2/internal/mockstore/mocktikv"
 	"github.com/tikv/client-go/v2/kv"
 	"github.com/tikv/client-go/v2/verifh/vrep"
@@ -37,12 +39,27 @@ const (
 )
 
 type c09Phase struct {
-	quiet bool // no chaos: lookups and sends must succeed
+	quiet bool        // no chaos: lookups and sends must succeed
+	end   *c09CtxPlan // the caller's context of this lookup ends during the call
 }
+
+func (w *c09World) boPh(ph c09Phase) *retry.Backoffer {
+	if ph.end != nil {
+		return retry.NewBackofferWithVars(context.WithValue(ph.end.ctx, c09OpKey{}, 1), c09LookupBudgetMs, nil)
+	}
+	return w.bo(c09LookupBudgetMs)
+}
+
+type c09OpKey struct{}
 
 func (w *c09World) lookupErr(ph c09Phase, api string, err error, expected bool) {
 	w.r.Count("lookup_errors", 1)
 	w.logf("  -> error: %v", err)
+	if ph.end != nil && ph.end.fired.Load() {
+		// the caller's context ended during this call: its error is not judged
+		w.r.Count("ctx_ended_calls_failed", 1)
+		return
+	}
 	if ph.quiet && !expected {
 		w.r.Eval(1)
 		w.violate("quiescent:lookup-error:"+api, fmt.Sprintf("%s failed although nothing changes, every store runs and PD answers are fresh: %v", api, err), nil)
@@ -56,12 +73,13 @@ func (w *c09World) fp(api, args string) {
 // op runs one lookup operation chosen by kind and judges its result.
 // kinds: 0 LocateKey 1 LocateEndKey 2 TryLocateKey 3 LocateRegionByID
 // 4 LocateKeyRange 5 BatchLocateKeyRanges 6 GroupKeysByRegion
+// 7 LoadRegionsInKeyRange 8 ListRegionIDsInKeyRange 9 BatchLoadRegionsFromKey
 func (w *c09World) op(rng *rand.Rand, ph c09Phase, kind int) {
 	switch kind {
 	case 0:
 		key := w.randKey(rng)
 		w.logf("LocateKey(%s)", c09K(key))
-		loc, err := w.cache.LocateKey(w.bo(c09LookupBudgetMs), key)
+		loc, err := w.cache.LocateKey(w.boPh(ph), key)
 		if err != nil {
 			w.lookupErr(ph, "LocateKey", err, false)
 		} else {
@@ -82,7 +100,7 @@ func (w *c09World) op(rng *rand.Rand, ph c09Phase, kind int) {
 			}
 		}
 		w.logf("LocateEndKey(%s)", c09K(key))
-		loc, err := w.cache.LocateEndKey(w.bo(c09LookupBudgetMs), key)
+		loc, err := w.cache.LocateEndKey(w.boPh(ph), key)
 		if err != nil {
 			w.lookupErr(ph, "LocateEndKey", err, false)
 		} else {
@@ -107,7 +125,7 @@ func (w *c09World) op(rng *rand.Rand, ph c09Phase, kind int) {
 		w.mu.Unlock()
 		exists := w.cur().byID(id) != nil
 		w.logf("LocateRegionByID(%d) exists-now=%v", id, exists)
-		loc, err := w.cache.LocateRegionByID(w.bo(c09LookupBudgetMs), id)
+		loc, err := w.cache.LocateRegionByID(w.boPh(ph), id)
 		if err != nil {
 			w.lookupErr(ph, "LocateRegionByID", err, !exists)
 		} else {
@@ -128,7 +146,7 @@ func (w *c09World) op(rng *rand.Rand, ph c09Phase, kind int) {
 		rs := w.randRanges(rng, 1)
 		strict := w.consistent()
 		w.logf("LocateKeyRange%s", c09RangesStr(rs))
-		locs, err := w.cache.LocateKeyRange(w.bo(c09LookupBudgetMs), rs[0].StartKey, rs[0].EndKey)
+		locs, err := w.cache.LocateKeyRange(w.boPh(ph), rs[0].StartKey, rs[0].EndKey)
 		if err != nil {
 			w.lookupErr(ph, "LocateKeyRange", err, false)
 		} else {
@@ -151,7 +169,7 @@ func (w *c09World) op(rng *rand.Rand, ph c09Phase, kind int) {
 			hits = w.cachedPicture()
 		}
 		w.logf("BatchLocateKeyRanges(%s)", c09RangesStr(rs))
-		locs, err := w.cache.BatchLocateKeyRanges(w.bo(c09LookupBudgetMs), append([]kv.KeyRange(nil), rs...), opts...)
+		locs, err := w.cache.BatchLocateKeyRanges(w.boPh(ph), append([]kv.KeyRange(nil), rs...), opts...)
 		if err != nil {
 			w.lookupErr(ph, "BatchLocateKeyRanges", err, false)
 		} else {
@@ -166,12 +184,61 @@ func (w *c09World) op(rng *rand.Rand, ph c09Phase, kind int) {
 	case 6:
 		keys := w.randKeySet(rng)
 		w.logf("GroupKeysByRegion(%d keys)", len(keys))
-		groups, first, err := w.cache.GroupKeysByRegion(w.bo(c09LookupBudgetMs), keys, nil)
+		groups, first, err := w.cache.GroupKeysByRegion(w.boPh(ph), keys, nil)
 		if err != nil {
 			w.lookupErr(ph, "GroupKeysByRegion", err, false)
 		} else {
 			w.checkGroups(keys, groups, first)
 			w.fp("GroupKeysByRegion", fmt.Sprint(len(keys), c09K(keys[0]), c09K(keys[len(keys)-1])))
+		}
+	case 7:
+		rs := w.randRanges(rng, 1)
+		w.logf("LoadRegionsInKeyRange%s", c09RangesStr(rs))
+		regs, err := w.cache.LoadRegionsInKeyRange(w.boPh(ph), rs[0].StartKey, rs[0].EndKey)
+		if err != nil {
+			w.lookupErr(ph, "LoadRegionsInKeyRange", err, false)
+		} else {
+			var locs []*KeyLocation
+			for _, r := range regs {
+				locs = append(locs, &KeyLocation{Region: r.VerID(), StartKey: r.StartKey(), EndKey: r.EndKey()})
+			}
+			w.logf("  -> %s", c09LocsStr(locs))
+			w.checkCover("LoadRegionsInKeyRange", rs, locs, false)
+			w.fp("LoadRegionsInKeyRange", c09RangesStr(rs))
+		}
+	case 8:
+		rs := w.randRanges(rng, 1)
+		if len(rs[0].EndKey) == 0 {
+			rs[0].EndKey = []byte{0xff, 0xff, 0xff}
+		}
+		w.logf("ListRegionIDsInKeyRange%s", c09RangesStr(rs))
+		ids, err := w.cache.ListRegionIDsInKeyRange(w.boPh(ph), rs[0].StartKey, rs[0].EndKey)
+		if err != nil {
+			w.lookupErr(ph, "ListRegionIDsInKeyRange", err, false)
+		} else {
+			w.logf("  -> %v", ids)
+			w.r.Eval(1)
+			w.r.Count("lookups_checked", 1)
+			if len(ids) == 0 {
+				w.violate("range:gap:ListRegionIDsInKeyRange:empty", fmt.Sprintf("ListRegionIDsInKeyRange%s returned no region and no error", c09RangesStr(rs)), nil)
+			}
+		}
+	case 9:
+		// a batch load that is cut by its limit: only part of the key space gets cached
+		start := w.randKey(rng)
+		n := 1 + rng.Intn(3)
+		w.logf("BatchLoadRegionsFromKey(%s, %d)", c09K(start), n)
+		end, err := w.cache.BatchLoadRegionsFromKey(w.boPh(ph), start, n)
+		if err != nil {
+			w.lookupErr(ph, "BatchLoadRegionsFromKey", err, false)
+		} else {
+			w.logf("  -> next key %s", c09K(end))
+			w.r.Eval(1)
+			w.r.Count("lookups_checked", 1)
+			w.r.Count("limited_batch_loads", 1)
+			if len(end) > 0 && bytes.Compare(end, start) <= 0 {
+				w.violate("range:gap:BatchLoadRegionsFromKey:no-progress", fmt.Sprintf("BatchLoadRegionsFromKey(%s,%d) returned end key %s", c09K(start), n, c09K(end)), nil)
+			}
 		}
 	}
 	w.observe("op-end", nil)
@@ -210,6 +277,78 @@ func (w *c09World) opSend(rng *rand.Rand, ph c09Phase) {
 		}
 	}
 	w.observe("op-end", nil)
+}
+
+// c09CtxWeights: which lookup runs under a context that ends during the call.
+var c09CtxWeights = []int{16, 12, 0, 10, 12, 22, 10, 8, 4, 6}
+
+// invalidateAll makes the next lookups go to PD (otherwise a context that ends
+// "at the n-th PD request" would rarely end at all).
+func (w *c09World) invalidateSome(rng *rand.Rand, pct int) {
+	w.mu.Lock()
+	vs := append([]RegionVerID(nil), w.seenVers...)
+	w.mu.Unlock()
+	for _, v := range vs {
+		if rng.Intn(100) < pct {
+			w.cache.InvalidateCachedRegion(v)
+		}
+	}
+}
+
+// opCtxEnd: a lookup whose caller context is cancelled / runs out at its n-th
+// PD request (before it is sent, or when its answer arrives).  The call itself
+// may fail; the same lookup repeated under a live context is judged as any
+// other, and the index walker judges what the interrupted call left behind.
+func (w *c09World) opCtxEnd(rng *rand.Rand, ph c09Phase) {
+	kind := c09Weighted(rng, c09CtxWeights)
+	seed := rng.Int63()
+	pl := c09NewCtxPlan(rng)
+	if rng.Intn(100) < 70 {
+		w.invalidateSome(rng, 30+rng.Intn(70))
+	}
+	w.logf("CTX-END lookup: %s", pl)
+	eph := ph
+	eph.end = pl
+	w.op(rand.New(rand.NewSource(seed)), eph, kind)
+	w.r.Count("ctx_end_lookups", 1)
+	if pl.fired.Load() {
+		w.r.Count("ctx_end_lookups_fired", 1)
+	}
+	// the same lookup with a live context
+	w.logf("CTX-END follow-up with a live context")
+	w.op(rand.New(rand.NewSource(seed)), ph, kind)
+}
+
+// opTwin: two goroutines look up the same thing at the same time; the context
+// of one of them ends during its call.
+func (w *c09World) opTwin(rng *rand.Rand, ph c09Phase) {
+	kind := []int{0, 0, 1, 5, 4, 6}[rng.Intn(6)]
+	seed := rng.Int63()
+	pl := c09NewCtxPlan(rng)
+	w.invalidateSome(rng, 50+rng.Intn(50))
+	w.logf("TWIN lookup (kind %d): one caller's %s", kind, pl)
+	was := w.concurrent.Swap(true)
+	var wg sync.WaitGroup
+	wg.Add(2)
+	go func() {
+		defer wg.Done()
+		eph := ph
+		eph.end = pl
+		w.op(rand.New(rand.NewSource(seed)), eph, kind)
+	}()
+	go func() {
+		defer wg.Done()
+		// the twin with the live context is judged as any other lookup
+		w.op(rand.New(rand.NewSource(seed)), ph, kind)
+	}()
+	wg.Wait()
+	w.concurrent.Store(was)
+	w.wbReset.Store(true)
+	w.r.Count("twin_lookups", 1)
+	if pl.fired.Load() {
+		w.r.Count("twin_lookups_fired", 1)
+	}
+	w.op(rand.New(rand.NewSource(seed)), ph, kind)
 }
 
 func (w *c09World) opInvalidate(rng *rand.Rand) {
@@ -514,7 +653,7 @@ func c09Static(r *vrep.Report, stream string, idx int, mvcc mocktikv.MVCCStore, 
 	w.pGap = []float64{0, 0, 0.12}[rng.Intn(3)]
 	w.mu.Unlock()
 	ph := c09Phase{quiet: true}
-	weights := []int{8, 8, 5, 5, 15, 35, 8} // LocateKey EndKey Try ByID KeyRange Batch Group
+	weights := []int{8, 8, 5, 5, 15, 35, 8, 4, 3, 5} // LocateKey EndKey Try ByID KeyRange Batch Group LoadRegions ListIDs BatchLoadFromKey
 	rounds := 2 + rng.Intn(2)
 	for round := 0; round < rounds; round++ {
 		w.newCache()
@@ -524,10 +663,14 @@ func c09Static(r *vrep.Report, stream string, idx int, mvcc mocktikv.MVCCStore, 
 		for i := 0; i < nOps; i++ {
 			x := rng.Intn(100)
 			switch {
-			case x < 84:
+			case x < 76:
 				w.op(rng, ph, c09Weighted(rng, weights))
-			case x < 90:
+			case x < 82:
 				w.opSend(rng, ph)
+			case x < 90:
+				w.opCtxEnd(rng, ph)
+			case x < 93:
+				w.opTwin(rng, ph)
 			default:
 				w.opInvalidate(rng)
 			}
@@ -590,7 +733,7 @@ func c09Dynamic(r *vrep.Report, stream string, idx int, mvcc mocktikv.MVCCStore,
 	w.pStale = stale
 	w.mu.Unlock()
 	chaos := c09Phase{quiet: false}
-	weights := []int{14, 12, 6, 8, 18, 30, 12}
+	weights := []int{14, 12, 6, 8, 18, 30, 12, 5, 3, 5}
 	steps := 25 + rng.Intn(30)
 	motifAt := -1
 	if rng.Intn(2) == 0 {
@@ -602,12 +745,16 @@ func c09Dynamic(r *vrep.Report, stream string, idx int, mvcc mocktikv.MVCCStore,
 		}
 		x := rng.Intn(100)
 		switch {
-		case x < 28:
+		case x < 26:
 			w.randomChange(rng)
-		case x < 80:
+		case x < 72:
 			w.op(rng, chaos, c09Weighted(rng, weights))
-		case x < 93:
+		case x < 84:
 			w.opSend(rng, chaos)
+		case x < 92:
+			w.opCtxEnd(rng, chaos)
+		case x < 95:
+			w.opTwin(rng, chaos)
 		default:
 			w.opInvalidate(rng)
 		}
@@ -636,10 +783,12 @@ func c09Dynamic(r *vrep.Report, stream string, idx int, mvcc mocktikv.MVCCStore,
 				for i := 0; i < 25; i++ {
 					x := wrng.Intn(100)
 					switch {
-					case x < 80:
+					case x < 72:
 						w.op(wrng, chaos, c09Weighted(wrng, weights))
-					case x < 94:
+					case x < 85:
 						w.opSend(wrng, chaos)
+					case x < 95:
+						w.opCtxEnd(wrng, chaos)
 					default:
 						w.opInvalidate(wrng)
 					}
@@ -663,6 +812,10 @@ func c09Dynamic(r *vrep.Report, stream string, idx int, mvcc mocktikv.MVCCStore,
 	}
 	quiet := c09Phase{quiet: true}
 	for i := 0; i < 8; i++ {
+		if i%4 == 1 {
+			w.opCtxEnd(rng, quiet)
+			continue
+		}
 		w.op(rng, quiet, c09Weighted(rng, weights))
 	}
 	w.finish()
@@ -725,6 +878,10 @@ func TestVerifC09Dynamic(t *testing.T) {
 		}
 	}
 	r.Floor("big_layouts", vrep.Pick(6, 100))
+	r.Floor("ctx_end_lookups_fired", vrep.Pick(750, 12000))
+	r.Floor("ctx_ended_after_pd_answer", vrep.Pick(500, 8000))
+	r.Floor("ctx_ended_before_pd_request", vrep.Pick(500, 8000))
+	r.Floor("twin_lookups_fired", vrep.Pick(220, 3500))
 	r.Floor("lookups_checked", vrep.Pick(30000, 500000))
 	r.Floor("topology_changes", vrep.Pick(6000, 100000))
 	r.Floor("pd_stale_answers", vrep.Pick(600, 10000))
@@ -746,6 +903,7 @@ func TestVerifC09Concurrent(t *testing.T) {
 			break
 		}
 	}
+	r.Floor("ctx_end_lookups_fired", vrep.Pick(400, 7000))
 	r.Floor("concurrent_ops", vrep.Pick(15000, 250000))
 	r.Floor("topology_changes", vrep.Pick(3000, 50000))
 	r.Floor("converged_requests", vrep.Pick(5000, 90000))
